@@ -13,7 +13,7 @@ import z3
 
 from .values import (Unsupported, EngineError, is_z3, is_boolish, is_intish, is_realish,
                      is_numish, concretize, simp, Z, ZB, ZR, EnumV, Opt, SymList, EmptyList,
-                     SymSet, Obj, ActionV, ClassRef, TypeV, FuncV, RangeV, DictV, ObjList, RowRef, PartialV, ListLit, INF, Inf,
+                     SymSet, Obj, ActionV, ClassRef, TypeV, FuncV, RangeV, DictV, ObjList, RowRef, PartialV, ListLit, SymMap2, INF, Inf,
                      STORAGE_CODES,
                      STEPTYPE)
 from .source import AnchorError
@@ -295,6 +295,9 @@ class Engine:
             return None, []
         if ty == "any":
             return z3.Int(n), []
+        if ty == "map2":
+            return SymMap2(z3.Array(n + ".present", z3.IntSort(), z3.IntSort(), z3.BoolSort()),
+                           z3.Array(n + ".val", z3.IntSort(), z3.IntSort(), z3.IntSort())), []
         if ty == "dict":
             raise Unsupported("fresh dict without declared keys")
         raise EngineError("unknown type %r" % (ty,))
@@ -337,6 +340,8 @@ class Engine:
             return self.fresh_objlist(v.cls, hint)
         if isinstance(v, (DictV, PartialV, RowRef)):
             return v, []
+        if isinstance(v, SymMap2):
+            return self.fresh("map2", hint)
         if isinstance(v, ListLit):
             etypes = [self.type_of_value(v[0])]
             x, cs = self.fresh(("list", etypes), hint)
@@ -889,6 +894,10 @@ class Engine:
         return self.cmp(op, a, b)
 
     def contains(self, cont, x, st, node):
+        if isinstance(cont, SymMap2):
+            if not (isinstance(x, tuple) and len(x) == 2):
+                raise Unsupported("membership of a non-pair in a pair-keyed dict")
+            return simp(z3.Select(cont.present, Z(x[0]), Z(x[1])))
         if isinstance(cont, DictV):
             key = self.dict_key(x)
             if key is None:
@@ -1056,6 +1065,11 @@ class Engine:
         return self.index_value(base, idx, st, n)
 
     def index_value(self, base, idx, st, node):
+        if isinstance(base, SymMap2):
+            if not (isinstance(idx, tuple) and len(idx) == 2):
+                raise Unsupported("pair-keyed dict subscript")
+            self.oblige(st, simp(z3.Select(base.present, Z(idx[0]), Z(idx[1]))), "key_present", node)
+            return simp(z3.Select(base.val, Z(idx[0]), Z(idx[1])))
         if isinstance(base, Opt) and isinstance(base.val, ObjList):
             self.oblige(st, Not(base.isnone), "none_is_not_subscriptable", node)
             base = base.val
